@@ -125,6 +125,7 @@ class ExprGen:
         self.r = rng
         self.env = env
         self.nfn = 0
+        self.str_only = False   # typed string fields of modelled resources reject int / bool literals
 
     # -- pieces
     def name(self):
@@ -161,9 +162,9 @@ class ExprGen:
         if k < 0.75:
             return r.choice(BOOLISH)
         if k < 0.85:
-            return r.choice([0, 1, 7, -3, 12345678901234567890])
+            return r.choice(["0", "1", "7", "-3"]) if self.str_only else r.choice([0, 1, 7, -3, 12345678901234567890])
         if k < 0.92:
-            return r.choice([True, False])
+            return r.choice(["true", "False"]) if self.str_only else r.choice([True, False])
         return r.choice(["{{resolve:ssm:/p/a:1}}", "{{resolve:ssm:/p/zz:3}}", "{{resolve:ssm:bad}}", "x{{resolve:ssm:/p/a:1}}",
                          "{{resolve:ssm:/p/a:1}}tail"])
 
